@@ -707,8 +707,14 @@ func genC12(r *Rng, tier string, idx int) *Plan {
 		}
 		p.Ops = append(p.Ops, op)
 	}
-	// timeouts: none, or far beyond the horizon of the history (expiry is C10's subject)
-	if r.Bool() {
+	// timeouts: none, or far beyond the horizon of the history (expiry is C10's subject) ...
+	if p.Mode == "fault-free" && r.Chance(0.3) {
+		// ... or inside it: sessions also leave the map by running out, and whatever an implementation keeps of them
+		// must not show under the same or another id afterwards ("ids do not interfere", "a read sees the latest write")
+		p.Mode = "expiring-sessions"
+		lim := [][2]int{{40, 0}, {0, 25}, {120, 30}, {30, 0}, {0, 60}}[r.Intn(5)]
+		p.Ops = append([]Op{{ID: 0, Kind: "timeouts", D: lim[0], F: lim[1]}}, p.Ops...)
+	} else if r.Bool() {
 		p.Ops = append([]Op{{ID: 0, Kind: "timeouts", D: 100000, F: 100000}}, p.Ops...)
 	}
 	if p.Mode == "redis-command-faults" {
@@ -827,5 +833,5 @@ func runC12(p *Plan) *Result {
 	if p.Mode == "concurrent-memory" {
 		return runC12Lin(p)
 	}
-	return runStorePlan(p, "C12", false)
+	return runStorePlan(p, "C12", p.Mode == "expiring-sessions")
 }
